@@ -51,8 +51,8 @@ impl Ctx {
 fn set_schedule_seed(s: &mut AnyScript, seed: u64) {
     match s {
         AnyScript::Nucleo(n) => n.sched.schedule_seed = seed,
-        #[allow(unreachable_patterns)]
-        _ => {}
+        AnyScript::Boxcar(n) => n.sched.schedule_seed = seed,
+        AnyScript::Sort(n) => n.sched.schedule_seed = seed,
     }
 }
 
